@@ -78,7 +78,10 @@ EntryPoints == {
     {"member/validating", "member/nonvalidating", "stranger/validating"}, {"member/validating"}, "none"),
   E("tree.AddRawChanges", {V("change", "TreeHeadUpdate", NoChoice), V("snapshot", "TreeHeadUpdate", NoChoice),
                            V("chain", "TreeHeadUpdate", NoChoice), V("root", "TreeHeadUpdate", NoChoice),
-                           V("old-branch", "TreeHeadUpdate", NoChoice)},
+                           V("old-branch", "TreeHeadUpdate", NoChoice),
+                           \* batches that contain an element which can never be attached (a snapshot on top of a
+                           \* change that is not sent), parent-first and child-first
+                           V("orphan-batch", "TreeHeadUpdate", NoChoice), V("orphan-batch-childfirst", "TreeHeadUpdate", NoChoice)},
     TreeStates, {"full/objecttree", "reduced/objecttree"}, "none"),
   E("tree.UnpackChange", {V("change", "RawTreeChangeWithId", NoChoice), V("root", "RawTreeChangeWithIdRoot", NoChoice)},
     {"full/objecttree", "derived/objecttree"}, {"full/objecttree"}, "none"),
@@ -86,6 +89,7 @@ EntryPoints == {
                              V("newTree-snapshot", "TreeSyncMessage", Sync("fullSyncResponse"))},
     {"default", "filter"}, {"default"}, "none"),
   E("synctree.HandleHeadUpdate", {V("headUpdate", "TreeSyncMessage", Sync("headUpdate")),
+                                  V("headUpdate-orphan-childfirst", "TreeSyncMessage", Sync("headUpdate")),
                                   V("headUpdate-nochanges", "TreeSyncMessage", Sync("headUpdate")),
                                   V("fullSyncRequest", "TreeSyncMessage", Sync("fullSyncRequest")),
                                   V("errorResponse", "TreeSyncMessage", Sync("errorResponse"))},
@@ -95,6 +99,7 @@ EntryPoints == {
                                      V("headUpdate", "TreeSyncMessage", Sync("headUpdate"))},
     {"full/objecttree", "reduced/objecttree"}, {"reduced/objecttree"}, "none"),
   E("synctree.HandleResponse", {V("fullSyncResponse", "TreeSyncMessage", Sync("fullSyncResponse")),
+                                V("fullSyncResponse-orphan-childfirst", "TreeSyncMessage", Sync("fullSyncResponse")),
                                 V("headUpdate", "TreeSyncMessage", Sync("headUpdate"))},
     {"full/objecttree", "reduced/objecttree"}, {"full/objecttree"}, "none"),
   E("kv.KeyValueFromProto", {V("value", "StoreKeyValue", NoChoice)}, {"verify", "noverify"}, {"verify"}, "none"),
@@ -138,8 +143,13 @@ Groups == { [ep |-> e.ep, v |-> v.v, top |-> v.top, choice |-> v.choice, st |-> 
                                 : FrameFits(t[1], t[2], t[3]) } }
 -----------------------------------------------------------------------------
 (* ---- message tree: all field paths of the base message ---- *)
-MaxDepth == 9
+MaxDepth == 11
 IsMsg(f) == f.k \in {"msg", "emb"}
+IsCipher(f) == f.k \in {"ct_x25519", "ct_aes"}
+(* a field whose content has fields of its own: a sub-message, bytes that are decoded as a message, or a *)
+(* ciphertext whose PLAINTEXT is a message (the author of a record chooses that plaintext: the renderer  *)
+(* opens the field with the key it was sealed for, mutates the plaintext and seals it again)             *)
+HasInner(f) == IsMsg(f) \/ (IsCipher(f) /\ f.t # "")
 
 (* synthetic single-field messages for the entry points that take a bare blob / string      *)
 SynthSchema == [CtX25519 |-> << F("ct", "ct_x25519", "", FALSE, "") >>,
@@ -153,14 +163,14 @@ PathsOf(type, choice, depth) ==
     ELSE UNION { LET f == FullSchema[type][i] IN
                    IF f.oneof # "" /\ (type \notin DOMAIN choice \/ choice[type] # f.n) THEN {}
                    ELSE {[path |-> <<f.n>>, f |-> f]}
-                        \cup (IF IsMsg(f)
+                        \cup (IF HasInner(f)
                               THEN { [path |-> <<f.n>> \o p.path, f |-> p.f] : p \in PathsOf(f.t, choice, depth - 1) }
                               ELSE {})
                : i \in 1..Len(FullSchema[type]) }
 
 -----------------------------------------------------------------------------
 (* ---- mutation operators ---- *)
-LenDelimited(k) == k \notin {"varint", "enum"}
+LenDelimited(k) == k \notin {"varint", "enum", "keytype"}
 
 StructOps(f) ==
     {"duplicate-field", "trunc-before", "trunc-tag", "cut-before", "cut-tag",
@@ -168,20 +178,28 @@ StructOps(f) ==
     \cup (IF IsMsg(f) THEN {"nil-submessage", "empty-submessage"} ELSE {"remove-field"})
     \cup (IF LenDelimited(f.k)
           THEN {"len-minus1", "len-plus1", "len-huge", "len-overflow", "trunc-len", "trunc-mid", "cut-len", "cut-mid"} ELSE {})
-    \cup (IF f.rep THEN {"rep-many"} ELSE {})
+    \cup (IF f.rep THEN {"rep-many", "rep-reverse", "rep-rotate"} ELSE {})
+
+(* the plaintext of an encrypted field, replaced and sealed again for the same recipient *)
+PlaintextOps == {"pt-empty", "pt-one-byte", "pt-grow-64k", "pt-garbage"}
 
 KindOps(k) ==
     CASE k \in {"bytes", "string"} -> {"empty", "one-byte", "grow-64k"}
       [] k = "strkey"    -> {"empty", "one-byte", "grow-64k", "str-truncated", "str-bad-charset", "str-wrong-version", "str-bad-checksum"}
       [] k = "ct_x25519" -> {"ct-empty", "ct-short-1", "ct-short-31", "ct-exact-32", "ct-short-47", "ct-garbage", "ct-for-other-key"}
+                            \cup PlaintextOps
       [] k = "ct_aes"    -> {"ct-empty", "ct-short-1", "ct-short-11", "ct-exact-12", "ct-short-27", "ct-garbage", "ct-for-other-key"}
+                            \cup PlaintextOps
+      [] k = "keydata"   -> {"empty", "one-byte", "grow-64k", "keydata-len-0", "keydata-len-1", "keydata-len-15", "keydata-len-16",
+                             "keydata-len-24", "keydata-len-31", "keydata-len-33", "keydata-len-64"}
+      [] k = "keytype"   -> {"keytype-ed25519-public", "keytype-ed25519-private", "keytype-aes", "enum-unknown", "varint-max"}
       [] k = "key_pub"   -> {"key-empty", "key-wrong-type-aes", "key-wrong-type-priv", "key-unknown-type", "key-zero-len",
                              "key-short-31", "key-long-33", "key-bad-point", "key-raw-unwrapped", "key-other"}
       [] k = "sig"       -> {"sig-empty", "sig-short-63", "sig-long-65", "sig-garbage"}
       [] k = "id"        -> {"id-empty", "id-dangling", "id-garbage"}
       [] k = "parent_id" -> {"parents-none", "parent-dangling", "parent-redundant", "parent-duplicate", "parent-trimmed",
-                             "parent-self", "id-garbage"}
-      [] k = "snap_id"   -> {"id-empty", "id-dangling", "snap-trimmed", "snap-nonsnapshot", "id-garbage"}
+                             "parent-self", "id-garbage", "ref-inbatch-orphan"}
+      [] k = "snap_id"   -> {"id-empty", "id-dangling", "snap-trimmed", "snap-nonsnapshot", "id-garbage", "ref-inbatch-orphan"}
       [] k = "cid"       -> {"cid-empty", "cid-garbage", "cid-of-other-content"}
       [] k = "varint"    -> {"varint-max", "varint-zero", "varint-flip"}
       [] k = "enum"      -> {"varint-max", "enum-unknown"}
@@ -211,13 +229,19 @@ OpClass(op) ==
       [] op \in {"ct-empty", "ct-short-1", "ct-short-31", "ct-exact-32", "ct-short-47", "ct-short-11", "ct-exact-12", "ct-short-27"} -> "short-ciphertext"
       [] op \in {"ct-garbage", "ct-for-other-key", "snappy-garbage", "snappy-bad-offset", "str-bad-charset", "str-bad-checksum", "lie-hash-random", "garbage-message"} -> "garbage"
       [] op \in {"key-empty", "key-wrong-type-aes", "key-wrong-type-priv", "key-unknown-type", "key-zero-len", "key-short-31",
-                 "key-long-33", "key-bad-point", "key-raw-unwrapped", "key-other", "frame-type-unknown", "frame-type-other", "str-wrong-version"} -> "wrong-key-type"
+                 "key-long-33", "key-bad-point", "key-raw-unwrapped", "key-other", "frame-type-unknown", "frame-type-other", "str-wrong-version",
+                 "keytype-ed25519-public", "keytype-ed25519-private", "keytype-aes"} -> "wrong-key-type"
       [] op \in {"sig-empty", "sig-short-63", "sig-long-65", "sig-garbage"} -> "bad-signature"
       [] op \in {"id-empty", "id-dangling", "id-garbage", "cid-empty", "cid-garbage", "cid-of-other-content", "lie-no-elements"} -> "dangling-ref"
       [] op \in {"parents-none", "parent-dangling", "parent-redundant", "parent-duplicate", "parent-self"} -> "parent-ref"
       [] op \in {"parent-trimmed", "snap-trimmed", "snap-nonsnapshot"} -> "trimmed-ref"
       [] op \in {"varint-max", "varint-zero", "varint-flip", "enum-unknown"} -> "varint"
       [] op \in {"tag-zero", "tag-wiretype7", "tag-group", "tag-overlong"} -> "malformed-tag"
+      [] op \in PlaintextOps -> "inner-plaintext"
+      [] op \in {"keydata-len-0", "keydata-len-1", "keydata-len-15", "keydata-len-16", "keydata-len-24", "keydata-len-31",
+                 "keydata-len-33", "keydata-len-64"} -> "key-material"
+      [] op \in {"rep-reverse", "rep-rotate"} -> "reorder"
+      [] op = "ref-inbatch-orphan" -> "inbatch-ref"
       [] op \in {"frame-valid", "snappy-valid", "lie-honest", "valid"} -> "valid"
       [] OTHER -> "unclassified"
 
@@ -233,8 +257,18 @@ PathTable == [tc \in { <<g.top, g.choice>> : g \in Groups } |-> PathsOf(tc[1], t
 QuickSkip == {"cut-before", "cut-tag", "cut-len", "cut-mid", "trunc-tag", "trunc-len", "len-overflow", "len-minus1",
               "one-byte", "varint-flip", "varint-zero", "key-long-33", "key-unknown-type", "key-raw-unwrapped",
               "key-other", "sig-long-65", "sig-short-63", "ct-short-47", "ct-short-27", "ct-exact-12", "ct-exact-32",
-              "ct-for-other-key", "id-garbage", "cid-garbage", "str-bad-checksum", "tag-group", "tag-overlong"}
+              "ct-for-other-key", "id-garbage", "cid-garbage", "str-bad-checksum", "tag-group", "tag-overlong", "rep-rotate", "pt-one-byte", "pt-garbage",
+              "keydata-len-1", "keydata-len-64"}
 OpsOf(f) == (StructOps(f) \cup KindOps(f.k)) \ (IF Tier = "quick" THEN QuickSkip ELSE {})
+
+(* operators that need something the base message of the group does not have:                     *)
+(*  - a reference to an unattachable element of the same message needs a batch that contains one  *)
+(*  - reordering needs a repeated field with at least two elements                                *)
+OrphanVariants == {"orphan-batch", "orphan-batch-childfirst", "headUpdate-orphan-childfirst",
+                   "fullSyncResponse-orphan-childfirst"}
+SingleElementEPs == {"handshake.readMsg", "ldiff.Diff", "tree.UnpackChange"}
+Applicable(g, op) == /\ (op = "ref-inbatch-orphan") => (g.v \in OrphanVariants)
+                     /\ (op \in {"rep-reverse", "rep-rotate"}) => (g.ep \notin SingleElementEPs)
 
 (* whole-message operators: every byte prefix of the rendered message (expanded by the harness, *)
 (* which knows the length), and the valid message itself (the base must be accepted or cleanly  *)
@@ -243,7 +277,7 @@ WholeOps == {"prefix-sweep", "valid", "empty-message", "garbage-message"}
 
 CasesFor(g) ==
     { [path |-> p.path, kind |-> p.f.k, op |-> op, cls |-> OpClass(op), reseal |-> r]
-        : <<p, op, r>> \in UNION { UNION { {p} \X {op} \X Reseals(op) : op \in OpsOf(p.f) }
+        : <<p, op, r>> \in UNION { UNION { {p} \X {op} \X Reseals(op) : op \in { o \in OpsOf(p.f) : Applicable(g, o) } }
                                    : p \in PathTable[<<g.top, g.choice>>] } }
     \cup { [path |-> <<>>, kind |-> "message", op |-> op, cls |-> OpClass(op), reseal |-> FALSE] : op \in WholeOps }
     \cup { [path |-> <<>>, kind |-> "frame", op |-> op, cls |-> OpClass(op), reseal |-> FALSE] : op \in FrameOps(g.frame) }
@@ -282,7 +316,8 @@ OutcomeOK == /\ outcome \in {"none", "accepted", "rejected"}
 (* coverage accounting (non-vacuity): the operator classes the property names, and for every *)
 (* entry point the classes that must be generated for it                                     *)
 PropertyClasses == {"truncate", "length-field", "remove-field", "duplicate-field", "nil-submessage",
-                    "short-ciphertext", "wrong-key-type", "parent-ref", "trimmed-ref", "dangling-ref", "oversize"}
+                    "short-ciphertext", "wrong-key-type", "parent-ref", "trimmed-ref", "dangling-ref", "oversize",
+                    "inner-plaintext", "key-material", "reorder", "inbatch-ref"}
 
 ClassTable == [ep \in {e.ep : e \in EntryPoints} |->
                  { OpClass(c.op) : c \in UNION { CasesOf(g) : g \in { g \in Groups : g.ep = ep } } }]
@@ -294,10 +329,10 @@ RequiredClasses(ep) ==
               "wrong-key-type", "oversize", "bad-signature"}
       [] ep \in {"acl.AddRawRecord", "acl.ValidateRawRecord", "acl.AddRawRecords"} ->
              {"truncate", "length-field", "remove-field", "duplicate-field", "nil-submessage", "short-ciphertext",
-              "wrong-key-type", "dangling-ref", "oversize", "bad-signature"}
+              "wrong-key-type", "dangling-ref", "oversize", "bad-signature", "inner-plaintext", "key-material", "reorder"}
       [] ep \in {"tree.AddRawChanges", "synctree.HandleHeadUpdate", "synctree.HandleResponse"} ->
              {"truncate", "length-field", "remove-field", "duplicate-field", "nil-submessage", "short-ciphertext",
-              "wrong-key-type", "parent-ref", "trimmed-ref", "dangling-ref", "oversize"}
+              "wrong-key-type", "parent-ref", "trimmed-ref", "dangling-ref", "oversize", "inner-plaintext", "reorder", "inbatch-ref"}
       [] ep = "handshake.readMsg" -> {"truncate", "length-field", "oversize", "wrong-key-type", "remove-field"}
       [] ep = "snappy.Unmarshal" -> {"truncate", "length-field", "oversize", "garbage"}
       [] ep = "ldiff.Diff" -> {"length-field", "dangling-ref", "oversize", "duplicate-field"}
